@@ -22,11 +22,11 @@ def parsePeer (s : String) : Option Peer :=
 
 def parseInt (s : String) : Int := s.toInt?.getD 0
 
-/-- `id~seq~key~orig~peer~refs` -/
+/-- `id~seq~key~orig~peer~refs~attr` -/
 def parseCmd (name : String) (s : String) : Cmd × String :=
   match s.splitOn "~" with
-  | [id, seq, key, orig, peer, refs] =>
-    ({ id := id.toNat?.getD 0, name := name, seq := parseInt seq, key := key, body := key.splitOn "$REF",
+  | [id, seq, key, orig, peer, refs, attr] =>
+    ({ id := id.toNat?.getD 0, name := name, seq := parseInt seq, key := key, attr := attr, body := key.splitOn "$REF",
        refs := splitNE refs ",", peer := parsePeer peer }, orig)
   | _ => ({ name := name, seq := 0, key := "?" }, "?")
 
